@@ -115,4 +115,27 @@ where plainL : List Field → Bool
   | [] => true
   | f :: fs => Field.plain f && plainL fs
 
+/-! ### the situation of the listed finding `extend:shared-array-one-name-missing`, as a decidable predicate -/
+
+/-- the leaf fields of a field tree as (dotted name, kind, array object) -/
+def Field.leafObjs (pre : String) : Field → List (String × Kind × Nat)
+  | .leaf n k o _ _ _ => [(pre ++ n, k, o)]
+  | .coll n _ _ fs => leafObjsL (pre ++ n ++ ".") fs
+where leafObjsL (pre : String) : List Field → List (String × Kind × Nat)
+  | [] => []
+  | f :: fs => Field.leafObjs pre f ++ leafObjsL pre fs
+
+/-- some array (of a kind whose `insert` consults the memo) of `a` is held under a name `b` lacks **and** under a name
+`b` has -/
+def oneSided (a b : List (String × Kind × Nat)) : Bool :=
+  a.any (fun x => !x.2.1.isPlain && !(b.any (fun z => z.1 == x.1)) &&
+    a.any (fun y => y.2.2 == x.2.2 && b.any (fun z => z.1 == y.1)))
+
+/-- **"an array of self is held under a name the other dataset lacks and under a name it has"** (or the mirror image):
+exactly the situation in which `extend` cannot both keep the two names one array and pad the name that is missing —
+the hypothesis the dataset-level refinement / sharing theorems have to exclude, and the condition of the listed finding -/
+def splitSharing (self other : List Field) : Bool :=
+  oneSided (Field.leafObjs.leafObjsL "" self) (Field.leafObjs.leafObjsL "" other) ||
+  oneSided (Field.leafObjs.leafObjsL "" other) (Field.leafObjs.leafObjsL "" self)
+
 end Midgard.Dataset
